@@ -3,7 +3,7 @@ package main
 // component "recovery" (C07, C09, wiring of C19): a real RecoveryConsumer (+ KafkaConsumer for main-consumer records
 // and revocation) over a scripted cursor client, driven by an op list.
 // input: "cfg maxRecords maxRate ; op ; op ..." with ops
-//   poll p | msg p o | main p o | kerr 0|1 | low p v | refresh | own p,p|- | revoke | req p f t | recv p f:t,..|- | crash
+//   poll p | msg p o | main p o | kerr 0|1 | low p v | refresh | own p,p|- | revoke | revokex | req p f t | recv p f:t,..|- | crash
 //   queue p o (a record sits prefetched in the client's event queue) | handle (one iteration of the event loop on that queue)
 
 import (
@@ -115,7 +115,7 @@ func genRecovery(r *rng, n int, tier string, emit func(string)) {
 			case x < 850:
 				ops = append(ops, "own "+ownAll())
 			case x < 870:
-				ops = append(ops, "revoke")
+				ops = append(ops, r.pickS("revoke", "revoke", "revokex"))
 			case x < 890:
 				ops = append(ops, "crash", "own "+ownAll(), "refresh")
 			case x < 915:
@@ -233,6 +233,11 @@ func execRecovery(input string) string {
 			g.rc.SetAssignedPartitions(tps)
 		case "revoke":
 			g.kc.VerifRevoke()
+		case "revokex":
+			// a revocation during which the main client's Unassign reports a failure: the recovery consumer must still be told
+			g.mainCl.unassignErr = true
+			g.kc.VerifRevoke()
+			g.mainCl.unassignErr = false
 		case "req":
 			g.rc.RequestRecovery(int32(pi(1)), kafka.Offset(pi(2)), kafka.Offset(pi(3)))
 		case "recv":
